@@ -6,6 +6,7 @@ import (
 	"go/types"
 	"regexp"
 	"sort"
+	"strings"
 
 	"golang.org/x/tools/go/ssa"
 
@@ -240,6 +241,9 @@ func C01(c *core.Ctx) {
 
 	c01Close(c, sets)
 	c01EndPaths(c, "R6", true)
+	// R8: periodic queries are data-plane operations too: a URR is registered for them once (by Create URR)
+	// and Remove URR always unregisters it, so no query outlives the rule (shared with C03 R8)
+	c03Periodic(c, "R8", false)
 }
 
 // R5
@@ -742,7 +746,17 @@ func C05(c *core.Ctx) {
 						if other == side {
 							other = cmp.Y
 						}
-						if mentionsPath(other, r.Results[0], "rnode", "addr") {
+						// the WHOLE address (IP and port) is compared: the value itself or its net.Addr String(),
+						// not a projection such as the IP alone (several CP nodes may share an IP)
+						whole := func(v ssa.Value, isBase func(ssa.Value) bool) bool {
+							if isBase(v) {
+								return true
+							}
+							cl, ok := v.(*ssa.Call)
+							return ok && cl.Call.IsInvoke() && cl.Call.Method.Name() == "String" && isBase(cl.Call.Value)
+						}
+						if whole(side, func(v ssa.Value) bool { return v == ssa.Value(addr) }) &&
+							whole(other, func(v ssa.Value) bool { return core.IsPath(v, r.Results[0], "rnode", "addr") }) {
 							usesAddr = true
 						}
 					}
@@ -830,6 +844,25 @@ func C05(c *core.Ctx) {
 		})
 	}
 	c.Floor("R6", nMu, 2, "stores into the node table")
+	// R7: removing one session's periodic URR leaves the periodic reporting of every other session alone:
+	// the group-table discipline of the periodic server (C15 R2) seen from this property
+	if fn15, ok := Registry["C15"]; ok {
+		sub, _ := core.NewCtx(c.P, "C15", c.Tier, c.Seed, c.OutDir, "")
+		fn15(sub)
+		for _, key := range []string{"drop-iff-group-empty", "del-removes-pair", "ticker-stopped-before-drop", "stop-arm"} {
+			bad := ""
+			n := 0
+			for _, o := range sub.Obls {
+				if strings.Contains(o.Key, "/R2/"+key) {
+					n++
+					if !o.OK {
+						bad = o.Desc
+					}
+				}
+			}
+			c.Check("R7", "periodic-removal-confined:"+key, token.NoPos, bad == "" && n > 0, "periodic server, removal of one (SEID, URR): "+key+" (C15 R2) "+bad)
+		}
+	}
 }
 
 // seidOfRequest: v is <param>.SEID() / a field named SEID of a parameter / a parameter named like a SEID.
